@@ -284,9 +284,8 @@ Proof. vm_compute. split; reflexivity. Qed.
 
 Example ex_t_ok : chains_ok Z ex_hash ex_t.
 Proof.
-  exact (proj1 (Forall_forall _ _)
-           (C02_invariant_reachable Z Z.eqb ex_hash ex_keqb_spec KMap ex_caps (firstn 6 ex_ops) ex_caps_ok)
-           ex_t (or_introl eq_refl)).
+  pose proof (C02_invariant_reachable Z Z.eqb ex_hash ex_keqb_spec KMap ex_caps (firstn 6 ex_ops) ex_caps_ok) as H.
+  unfold state_ok in H. rewrite Forall_forall in H. apply H. vm_compute. left. reflexivity.
 Qed.
 
 Example ex_run_map : run Z.eqb ex_hash KMap (start Z ex_caps) ex_ops = spec_run Z.eqb KMap [[]; []; []] ex_ops.
